@@ -354,7 +354,7 @@ def run_history(seed, length, cplx=None, only=None):
 def run(ctx):
     quick = ctx.tier == 'quick'
     lib.stage_proof(ctx, PROP_FILES, ['Check/C06.vo', 'History/C06_pinned.vo'])
-    n = 400 if quick else 6000
+    n = 400 if quick else 12000
     L = 6 if quick else 12
     cases, metas = [], []
     for k in range(n):
